@@ -18,6 +18,7 @@
 (*                            [start, end) (chunk maps, contiguous space) or a chunk currently        *)
 (*                            assigned to s (chunk maps, discontiguous space: no stale entries)       *)
 (*   C31:outside-in-mmtk      a outside every space's range  =>  in = f and sft = "empty"           *)
+(*   C31:outside-descriptor   a outside every space's range  =>  descriptor = UNINITIALIZED (0)     *)
 (* Inside a space's slot but outside its grants nothing is required (with the space map such an     *)
 (* address resolves to the space by design).                                                        *)
 EXTENDS AddrSpace, Grants, Sequences, Json, IOUtils
@@ -79,14 +80,24 @@ DoChunksFreeAll(e) ==
 SpaceMap == tab.sftMap = "space"
 \* slot of an address below 2^47 (space map layout): chunk number >> (logSpaceExtent - 22)
 SlotNo(a) == LChunk(a) \div (2 ^ (tab.logSpaceExtent - 22))
-\* a is in the range within which lookups may resolve to space s
+\* a is in the range within which the SFT map may resolve to space s: its slot (space map), its
+\* [start, end) (chunk maps, contiguous space), a chunk currently assigned to it (discontiguous space)
 InResolutionRange(a, s) ==
     /\ ~Far(a)
     /\ IF s.contig
        THEN IF SpaceMap THEN SlotNo(a) = SlotNo(s.start)
             ELSE InLRange(a, s.start, s.end)
        ELSE LChunk(a) \in DOMAIN owner /\ owner[LChunk(a)] = s.descIndex
+\* ... and the range within which the VM map may answer s's descriptor: the slot with Map64
+\* (contiguous layout), else as above
+InDescriptorRange(a, s) ==
+    /\ ~Far(a)
+    /\ IF s.contig
+       THEN IF tab.contigLayout THEN SlotNo(a) = SlotNo(s.start)
+            ELSE InLRange(a, s.start, s.end)
+       ELSE LChunk(a) \in DOMAIN owner /\ owner[LChunk(a)] = s.descIndex
 OutsideAllSpaces(a) == \A s \in Common : ~InResolutionRange(a, s)
+OutsideAllDescriptors(a) == \A s \in Common : ~InDescriptorRange(a, s)
 GrantsAt(a) == IF Far(a) THEN {} ELSE Covering(live, SlotOf(LChunk(a)), PageIdx(LChunk(a), LPage(a)))
 
 \* where a panic happened, for the finding key
@@ -118,6 +129,7 @@ LookupOK(r) ==
         /\ G("C31:outside-in-mmtk",
                (OutsideAllSpaces(a) /\ ~(HasMallocSpace /\ r.why \in {"objStart", "objEnd"}))
                    => (r.in \in {"f", "panic"} /\ r.sft \in {"empty", "panic"}))
+        /\ G("C31:outside-descriptor", OutsideAllDescriptors(a) => r.desc \in {"0", "panic"})
 DoLookup(r) ==
     /\ LookupOK(r)
     /\ stats' = [stats EXCEPT !.rows = @ + 1,
